@@ -29,7 +29,11 @@ CONSTANTS
   \* @type: Bool;
   Accel,
   \* @type: Int;
-  AccelSteps
+  AccelSteps,
+  \* @type: Int;
+  NFinal,
+  \* @type: Bool;
+  Noisy
 
 VARIABLES
   \* @type: Str;
@@ -57,17 +61,27 @@ VARIABLES
   \* @type: Bool;
   first,
   \* @type: Int;
-  npolls
+  npolls,
+  \* @type: Int;
+  budgetEff,
+  \* @type: Int;
+  nfEff,
+  \* @type: Int;
+  nfDone
 
 CInit ==
   /\ D \in Int /\ Budget \in Int /\ MaxIter \in Int /\ KTol \in Int /\ NTry \in Int /\ AccelSteps \in Int
-  /\ Skip \in BOOLEAN /\ Accel \in BOOLEAN
-  /\ D >= 1 /\ Budget >= 1 /\ MaxIter >= 1 /\ NTry >= 0 /\ KTol <= 0 /\ AccelSteps >= 0
+  /\ NFinal \in Int
+  /\ Skip \in BOOLEAN /\ Accel \in BOOLEAN /\ Noisy \in BOOLEAN
+  /\ D >= 1 /\ Budget >= 1 /\ MaxIter >= 1 /\ NTry >= 0 /\ KTol <= 0 /\ AccelSteps >= 0 /\ NFinal >= 0
 
 Min2(a, b) == IF a <= b THEN a ELSE b
 Locked(kk) == Min2(0, 2 * kk - 10)
 
-Phases == {"loopbegin", "search", "decide", "pollbegin", "polleval", "loopend", "final"}
+Phases == {"loopbegin", "search", "decide", "pollbegin", "polleval", "loopend", "final", "done"}
+
+\* noisy targets reserve min(NFinal, Budget - fc) evaluations for the final re-sampling (BadsRules!ReserveFinal)
+Reserve(f) == IF Noisy THEN Min2(NFinal, Budget - f) ELSE 0
 
 Init ==
   /\ phase = "loopbegin"
@@ -76,23 +90,24 @@ Init ==
   /\ iter = 0 /\ sc = NTry /\ ss = 0
   /\ pcount = 0 /\ premain = 0 /\ pgood = FALSE /\ doPoll = FALSE
   /\ first = TRUE /\ npolls = 0
+  /\ nfEff = Reserve(fc) /\ budgetEff = Budget - Reserve(fc) /\ nfDone = 0
 
 LoopBegin ==
   /\ phase = "loopbegin"
   /\ ks' = Locked(k)
   /\ phase' = IF sc < NTry THEN "search" ELSE "decide"
-  /\ UNCHANGED <<fc, k, iter, sc, ss, pcount, premain, pgood, doPoll, first, npolls>>
+  /\ UNCHANGED <<fc, k, iter, sc, ss, pcount, premain, pgood, doPoll, first, npolls, budgetEff, nfEff, nfDone>>
 
 SearchEmpty ==
   /\ phase = "search" /\ sc' = sc + 1 /\ phase' = "decide"
-  /\ UNCHANGED <<fc, k, ks, iter, ss, pcount, premain, pgood, doPoll, first, npolls>>
+  /\ UNCHANGED <<fc, k, ks, iter, ss, pcount, premain, pgood, doPoll, first, npolls, budgetEff, nfEff, nfDone>>
 
 SearchEval ==
   /\ phase = "search"
   /\ sc' = sc + 1 /\ fc' = fc + 1
   /\ \E succ \in BOOLEAN : ss' = IF succ THEN ss + 1 ELSE ss
   /\ phase' = "decide"
-  /\ UNCHANGED <<k, ks, iter, pcount, premain, pgood, doPoll, first, npolls>>
+  /\ UNCHANGED <<k, ks, iter, pcount, premain, pgood, doPoll, first, npolls, budgetEff, nfEff, nfDone>>
 
 Decide ==
   /\ phase = "decide"
@@ -101,22 +116,22 @@ Decide ==
           /\ doPoll' = ~(ss > 0 /\ Skip)
      ELSE /\ doPoll' = FALSE /\ UNCHANGED <<sc, ss>>
   /\ phase' = IF doPoll' THEN "pollbegin" ELSE "loopend"
-  /\ UNCHANGED <<fc, k, ks, iter, pcount, premain, pgood, first, npolls>>
+  /\ UNCHANGED <<fc, k, ks, iter, pcount, premain, pgood, first, npolls, budgetEff, nfEff, nfDone>>
 
 PollBegin ==
   /\ phase = "pollbegin"
   /\ pcount' = 0 /\ pgood' = FALSE
-  /\ \E n \in 0 .. 2 * D : premain' = IF fc < Budget THEN n ELSE 0
+  /\ \E n \in 0 .. 2 * D : premain' = IF fc < budgetEff THEN n ELSE 0
   /\ npolls' = npolls + 1
   /\ phase' = "polleval"
-  /\ UNCHANGED <<fc, k, ks, iter, sc, ss, doPoll, first>>
+  /\ UNCHANGED <<fc, k, ks, iter, sc, ss, doPoll, first, budgetEff, nfEff, nfDone>>
 
 PollEval ==
   /\ phase = "polleval"
-  /\ fc < Budget /\ pcount < 2 * D /\ premain > 0
+  /\ fc < budgetEff /\ pcount < 2 * D /\ premain > 0
   /\ fc' = fc + 1 /\ pcount' = pcount + 1 /\ premain' = premain - 1
   /\ \E g \in BOOLEAN : pgood' = (pgood \/ g)
-  /\ UNCHANGED <<phase, k, ks, iter, sc, ss, doPoll, first, npolls>>
+  /\ UNCHANGED <<phase, k, ks, iter, sc, ss, doPoll, first, npolls, budgetEff, nfEff, nfDone>>
 
 PollEnd ==
   /\ phase = "polleval"
@@ -125,22 +140,36 @@ PollEnd ==
             ELSE IF Accel /\ iter > AccelSteps /\ stalled THEN k - 2 ELSE k - 1
   /\ ks' = IF pgood THEN ks ELSE Min2(ks, 2 * k' - 10)
   /\ phase' = "loopend"
-  /\ UNCHANGED <<fc, iter, sc, ss, pcount, premain, pgood, doPoll, first, npolls>>
+  /\ UNCHANGED <<fc, iter, sc, ss, pcount, premain, pgood, doPoll, first, npolls, budgetEff, nfEff, nfDone>>
 
 LoopEnd ==
   /\ phase = "loopend"
   /\ \E stall \in BOOLEAN :
-       LET fin == fc >= Budget \/ iter >= MaxIter - 1 \/ k < KTol \/ stall
+       LET fin == fc >= budgetEff \/ iter >= MaxIter - 1 \/ k < KTol \/ stall
        IN /\ phase' = IF fin THEN "final" ELSE "loopbegin"
           /\ iter' = IF ~fin /\ doPoll THEN iter + 1 ELSE iter
   /\ first' = FALSE
-  /\ UNCHANGED <<fc, k, ks, sc, ss, pcount, premain, pgood, doPoll, npolls>>
+  /\ UNCHANGED <<fc, k, ks, sc, ss, pcount, premain, pgood, doPoll, npolls, budgetEff, nfEff, nfDone>>
+
+\* after the loop: the reserved samples are taken at the returned point, then the run is over
+FinalSample ==
+  /\ phase = "final" /\ nfDone < nfEff
+  /\ fc' = fc + 1 /\ nfDone' = nfDone + 1
+  /\ UNCHANGED <<phase, k, ks, iter, sc, ss, pcount, premain, pgood, doPoll, first, npolls, budgetEff, nfEff>>
+
+FinalDone ==
+  /\ phase = "final" /\ nfDone = nfEff
+  /\ phase' = "done"
+  /\ UNCHANGED <<fc, k, ks, iter, sc, ss, pcount, premain, pgood, doPoll, first, npolls, budgetEff, nfEff, nfDone>>
 
 Next == LoopBegin \/ SearchEmpty \/ SearchEval \/ Decide \/ PollBegin \/ PollEval \/ PollEnd \/ LoopEnd
+        \/ FinalSample \/ FinalDone
 
 -----------------------------------------------------------------------------
 \* the properties (C03 budget / iteration bound, C13 mesh invariants)
 BudgetRespected == fc <= Budget
+\* C05: when the run is over every reserved final sample has been taken
+FinalSamplesTaken == phase = "done" => nfDone = nfEff
 IterBounded == iter <= MaxIter - 1 /\ npolls <= MaxIter
 MeshLeOne == k <= 0
 SearchMeshLeqPoll == ks <= k
@@ -149,6 +178,11 @@ SearchMeshLeqPoll == ks <= k
 IndInv ==
   /\ phase \in Phases
   /\ 1 <= fc /\ fc <= Budget
+  \* the reserve: budgetEff + nfEff = Budget, the loop spends at most budgetEff, the final phase the rest
+  /\ 0 <= nfEff /\ nfEff <= NFinal /\ budgetEff + nfEff = Budget /\ (~Noisy => nfEff = 0)
+  /\ 0 <= nfDone /\ nfDone <= nfEff /\ (phase \notin {"final", "done"} => nfDone = 0)
+  /\ fc <= budgetEff + nfDone
+  /\ (phase = "done" => nfDone = nfEff)
   /\ k <= 0 /\ ks <= k /\ ks <= 2 * k - 10
   /\ 0 <= iter /\ iter <= MaxIter - 1
   /\ 0 <= sc /\ sc <= NTry /\ 0 <= ss /\ ss <= sc
@@ -156,10 +190,10 @@ IndInv ==
   /\ 0 <= npolls
   \* the loop is (re-)entered only with evaluations left, except in the very first
   \* iteration, which skips the search
-  /\ (phase \in {"loopbegin", "search"}) => (fc < Budget \/ (first /\ sc = NTry))
-  /\ (phase = "search") => (sc < NTry /\ fc < Budget)
+  /\ (phase \in {"loopbegin", "search"}) => (fc < budgetEff \/ (first /\ sc = NTry))
+  /\ (phase = "search") => (sc < NTry /\ fc < budgetEff)
   \* polls so far: one per completed poll iteration, plus the one in progress
-  /\ npolls = iter + (IF phase \in {"polleval"} \/ (phase = "loopend" /\ doPoll) \/ (phase = "final" /\ doPoll) THEN 1 ELSE 0)
+  /\ npolls = iter + (IF phase \in {"polleval"} \/ (phase = "loopend" /\ doPoll) \/ (phase \in {"final", "done"} /\ doPoll) THEN 1 ELSE 0)
   /\ (phase = "pollbegin") => doPoll
   /\ (phase = "polleval") => doPoll
 
@@ -167,7 +201,7 @@ IndInv ==
 TypeAssign ==
   /\ phase \in Phases /\ fc \in Int /\ k \in Int /\ ks \in Int /\ iter \in Int /\ sc \in Int /\ ss \in Int
   /\ pcount \in Int /\ premain \in Int /\ pgood \in BOOLEAN /\ doPoll \in BOOLEAN /\ first \in BOOLEAN
-  /\ npolls \in Int
+  /\ npolls \in Int /\ budgetEff \in Int /\ nfEff \in Int /\ nfDone \in Int
 IndInvInit == TypeAssign /\ IndInv
-Safety == BudgetRespected /\ IterBounded /\ MeshLeOne /\ SearchMeshLeqPoll
+Safety == BudgetRespected /\ IterBounded /\ MeshLeOne /\ SearchMeshLeqPoll /\ FinalSamplesTaken
 =============================================================================
